@@ -26,7 +26,7 @@ ASSUMPTIONS = [
     "all lines are valid or ignorable",
 ]
 REQUIRED = ["built", "construction_failed", "invalid_reported", "ignorable_skipped", "mixed_ok",
-            "addrgroup_built", "addrgroup_invalid_reported"]
+            "addrgroup_built", "addrgroup_invalid_reported", "via_built", "via_failed"]
 
 VALID = ["permit ip any any", "deny tcp host 10.0.0.1 any eq 80", "10 permit udp any any",
          "remark some text",
@@ -81,6 +81,11 @@ def run_unit(unit, ctx):
         for n in range(2, _L(ctx.tier) + 1):
             for rest in product(range(len(ALPHABET)), repeat=n - 1):
                 check_acl(unit["cls"], unit["platform"], (unit["first"],) + rest, ctx)
+                if n <= 3:
+                    for via in VIAS:
+                        if via.startswith("acls:") and unit["cls"] != "Acl":
+                            continue
+                        check_acl(unit["cls"], unit["platform"], (unit["first"],) + rest, ctx, via=via)
         ctx.sample("acl", dict(cls=unit["cls"], platform=unit["platform"],
                                lines=[ALPHABET[i] for i in (unit["first"],) + rest]))
     else:
@@ -89,7 +94,7 @@ def run_unit(unit, ctx):
 
 def replay(case, ctx):
     if case["kind"] == "acl":
-        check_acl(case["cls"], case["platform"], tuple(case["idx"]), ctx)
+        check_acl(case["cls"], case["platform"], tuple(case["idx"]), ctx, via=case.get("via", "text"))
     else:
         check_ag(case["platform"], case["via"], case["lines"], ctx)
 
@@ -98,20 +103,43 @@ def _norm(s):
     return " ".join(s.split())
 
 
-def check_acl(cls, platform, idx, ctx):
+VIAS = ["items", "acls:\t", "acls: ", "acls:   "]
+
+
+def check_acl(cls, platform, idx, ctx, via="text"):
+    import cisco_acl
     from cisco_acl import AceGroup, Acl
 
     lines = [ALPHABET[i] for i in idx]
+    if via != "text":
+        lines = [ln for ln in lines if ln.strip()]  # a list element / a config line is never blank
+        if not lines:
+            return
     ctx.ev()
-    case = dict(kind="acl", cls=cls, platform=platform, idx=list(idx), lines=lines)
+    case = dict(kind="acl", cls=cls, platform=platform, idx=list(idx), lines=lines, via=via)
     head = "ip access-list extended A" if platform == "ios" else "ip access-list A"
     body = "\n".join("  " + ln for ln in lines)
     kinds = ["valid" if ln in VALID else "ignorable" if ln in IGNORABLE else "invalid" if ln in INVALID
              else "overlimit" if ln in OVERLIMIT else "blank" for ln in lines]
     with capture_logs(logging.DEBUG) as records:
         try:
-            obj = Acl(head + "\n" + body, platform=platform) if cls == "Acl" else \
-                AceGroup(body, platform=platform)
+            if via == "items":
+                # the lines given as a list of strings
+                obj = Acl(name="A", platform=platform, items=list(lines)) if cls == "Acl" else \
+                    AceGroup(items=list(lines), platform=platform)
+            elif via.startswith("acls:"):
+                # the ACL as a section of a configuration, body indented by blanks or a TAB
+                ind = via[5:]
+                got = cisco_acl.acls("hostname X\n" + head + "\n" + "\n".join(ind + ln for ln in lines)
+                                     + "\ninterface Ethernet1\n" + ind + "description x\n",
+                                     platform=platform)
+                if len(got) != 1:
+                    ctx.viol("acls:acl_lost", case, [a.name for a in got], ["A"])
+                    return
+                obj = got[0]
+            else:
+                obj = Acl(head + "\n" + body, platform=platform) if cls == "Acl" else \
+                    AceGroup(body, platform=platform)
             failed = None
         except (ValueError, TypeError) as ex:
             failed = ex
@@ -120,10 +148,15 @@ def check_acl(cls, platform, idx, ctx):
             return
     if failed is not None:
         ctx.out("construction_failed")
-        if all(k in ("valid", "ignorable", "blank") for k in kinds):
+        if via != "text":
+            ctx.out("via_failed")
+        if all(k in ("valid", "ignorable", "blank") for k in kinds) and \
+                not (via == "items" and "ignorable" in kinds):
             ctx.viol(f"{cls}:valid_text_rejected", case, repr(failed), "object")
         return
     ctx.out("built")
+    if via != "text":
+        ctx.out("via_built")
     warn = [m for lvl, m in records if lvl >= logging.WARNING]
     rd = Reader(platform)
     want_items = [ln for ln, k in zip(lines, kinds) if k == "valid"]
